@@ -77,7 +77,7 @@ pub fn replay(path: &str, out: &str) -> Value {
             Ok(n) => json!(["ok", n]),
             Err(e) => json!([kind_of(e), 0]),
         };
-        writeln!(w, "{}", json!({"fg":fg,"bg":bg,"data":data,"inner":inner,"ret":ret,"impl":"dyn"})).unwrap();
+        writeln!(w, "{}", json!({"fg":fg,"bg":bg,"data":data,"inner":inner,"ret":ret,"impl":"dyn","whole":false})).unwrap();
         events += 1;
         // a probe call on a reliable writer right after every scripted call, with ONE colour only: nothing of the previous call -
         // not even a failed one - may show in it (state carried across calls)
@@ -91,7 +91,7 @@ pub fn replay(path: &str, out: &str) -> Value {
                 Ok(n) => json!(["ok", n]),
                 Err(e) => json!([kind_of(e), 0]),
             };
-            writeln!(w, "{}", json!({"fg":pfg,"bg":pbg,"data":[112],"inner":inner,"ret":ret,"impl":"dyn (probe after the previous call)"})).unwrap();
+            writeln!(w, "{}", json!({"fg":pfg,"bg":pbg,"data":[112],"inner":inner,"ret":ret,"impl":"dyn (probe after the previous call)","whole":false})).unwrap();
             events += 1;
         }
         if fail_at == 0 && pre == data.len() && !short_code {
@@ -99,7 +99,7 @@ pub fn replay(path: &str, out: &str) -> Value {
             let mut v: Vec<u8> = Vec::new();
             let r = v.write_colored(col(fg), col(bg), &data);
             let ret = match &r { Ok(n) => json!(["ok", n]), Err(e) => json!([kind_of(e), 0]) };
-            writeln!(w, "{}", json!({"fg":fg,"bg":bg,"data":data,"inner":[[v, "ok", v.len()]],"ret":ret,"impl":"Vec"})).unwrap();
+            writeln!(w, "{}", json!({"fg":fg,"bg":bg,"data":data,"inner":[[v, "ok", v.len()]],"ret":ret,"impl":"Vec","whole":true})).unwrap();
             events += 1;
             if scripts % 7 == 0 {
                 let mut f = std::fs::File::create(&tmp).unwrap();
@@ -107,7 +107,7 @@ pub fn replay(path: &str, out: &str) -> Value {
                 drop(f);
                 let v = std::fs::read(&tmp).unwrap();
                 let ret = match &r { Ok(n) => json!(["ok", n]), Err(e) => json!([kind_of(e), 0]) };
-                writeln!(w, "{}", json!({"fg":fg,"bg":bg,"data":data,"inner":[[v, "ok", v.len()]],"ret":ret,"impl":"File"})).unwrap();
+                writeln!(w, "{}", json!({"fg":fg,"bg":bg,"data":data,"inner":[[v, "ok", v.len()]],"ret":ret,"impl":"File","whole":true})).unwrap();
                 events += 1;
             }
         }
